@@ -298,10 +298,33 @@ def secondary_transpile(ctx, kind, payload, res):
     c = res["counters"]
     prog = P.build_program(ctx, kind, payload)
     try:
-        a = transpile(prog)
         b = transpile(P.build_program(ctx, kind, P.reference_payload(kind, "a")))
-        (sa, ca), (sb, cb) = _py_shape(a), _py_shape(b)
-    except Exception:  # noqa  (payload not decodable / output does not compile: other properties)
+        sb, cb = _py_shape(b)
+    except Exception:  # noqa  (the harmless variant itself is not transpilable here)
+        c["secondary_skipped"] = c.get("secondary_skipped", 0) + 1
+        return
+    try:
+        a = transpile(prog)
+    except Exception as e:  # noqa
+        if kind in ("string", "twochar", "char", "comment"):
+            # text literals and comments hold arbitrary characters: a payload that makes the transpiler give
+            # up on a program it translates with a harmless payload was not treated as data
+            key = f"codegen_differs:transpile-raises:{kind}"
+            c[key] = c.get(key, 0) + 1
+            if c[key] <= 3 and len(res["violations"]) < 20:
+                res["violations"].append({
+                    "mechanism": f"codegen:transpile-raises:{kind}",
+                    "what": f"transpile({prog!r}) raises {type(e).__name__}: {str(e)[:120]}; with a harmless payload in the "
+                            f"same literal the program transpiles",
+                    "unit": {"kind": "single", "ctx": ctx["id"], "lit": kind, "payload": payload, "codegen": True},
+                    "program": prog, "literal_kind": kind,
+                })
+        else:  # compressed payloads may be undecodable: C15's subject
+            c["secondary_skipped"] = c.get("secondary_skipped", 0) + 1
+        return
+    try:
+        sa, ca = _py_shape(a)
+    except Exception:  # noqa  (output does not compile: C02's subject)
         c["secondary_skipped"] = c.get("secondary_skipped", 0) + 1
         return
     c["secondary_transpile_compared"] = c.get("secondary_transpile_compared", 0) + 1
